@@ -82,15 +82,16 @@ type Result struct {
 // Ctx is given to Property.Run; it collects observations for one case and journals
 // sub-cases before they execute.
 type Ctx struct {
-	Case    Case
-	mu      sync.Mutex
-	res     Result
-	sets    map[string]map[string]struct{}
-	nt      map[uint64]struct{}
-	journal *os.File
-	skip    map[string]bool
-	perKind map[string]int
-	Scratch string // per-worker scratch directory (removed by the driver)
+	Case        Case
+	mu          sync.Mutex
+	res         Result
+	sets        map[string]map[string]struct{}
+	nt          map[uint64]struct{}
+	journal     *os.File
+	skip        map[string]bool
+	perKind     map[string]int
+	autoSampled bool
+	Scratch     string // per-worker scratch directory (removed by the driver)
 }
 
 func NewCtx(c Case, journal *os.File, scratch string) *Ctx {
@@ -157,6 +158,16 @@ func (x *Ctx) Nontrivial(canon string) {
 	h.Write([]byte(canon))
 	x.mu.Lock()
 	x.nt[h.Sum64()] = struct{}{}
+	// the first non-trivial evaluation of a case doubles as a sample of what was explored,
+	// unless the property supplies richer samples itself
+	if len(x.res.Samples) == 0 && !x.autoSampled {
+		x.autoSampled = true
+		c := canon
+		if len(c) > 400 {
+			c = c[:400] + "..."
+		}
+		x.res.Samples = append(x.res.Samples, map[string]interface{}{"case": x.Case.ID, "kind": x.Case.Kind, "nontrivial_evaluation": c})
+	}
 	x.mu.Unlock()
 }
 
@@ -192,6 +203,9 @@ func (x *Ctx) Inconclusive(why string) {
 
 func (x *Ctx) Sample(v interface{}) {
 	x.mu.Lock()
+	if x.autoSampled {
+		x.res.Samples, x.autoSampled = nil, false
+	}
 	if len(x.res.Samples) < 2 {
 		x.res.Samples = append(x.res.Samples, v)
 	}
